@@ -1,1 +1,75 @@
 // Kani contract harnesses for /repo/arrow-array/src/array/byte_view_array.rs (child module: sees private items via super::)
+use super::*;
+#[path = "/verif/kani/support/spec.rs"]
+mod spec;
+use spec::*;
+use arrow_buffer::BooleanBuffer;
+
+/// Well-formedness of one 16-byte view against the data buffers, written from the Arrow columnar format
+/// ("Variable-size Binary View Layout"): bytes 0..4 = length (LE). length <= 12: the value is inlined in
+/// bytes 4..4+length and the remaining bytes are zero padding. length > 12: bytes 4..8 = first four
+/// bytes of the value, bytes 8..12 = buffer index, bytes 12..16 = offset; the index names an existing
+/// buffer, [offset, offset+length) lies inside it and the prefix equals the data there.
+fn view_wf(v: u128, data: &[u8], nbuffers: usize) -> bool {
+    let b = v.to_le_bytes();
+    let len = u32::from_le_bytes([b[0], b[1], b[2], b[3]]) as usize;
+    if len <= 12 {
+        let mut i = 4 + len;
+        while i < 16 {
+            if b[i] != 0 { return false; }
+            i += 1;
+        }
+        true
+    } else {
+        let bi = u32::from_le_bytes([b[8], b[9], b[10], b[11]]) as usize;
+        let off = u32::from_le_bytes([b[12], b[13], b[14], b[15]]) as usize;
+        if bi >= nbuffers { return false; }
+        // a single data buffer in these harnesses: bi == 0
+        if off + len > data.len() { return false; }
+        b[4] == data[off] && b[5] == data[off + 1] && b[6] == data[off + 2] && b[7] == data[off + 3]
+    }
+}
+
+// Contract (C09, both directions; C01 read-back): GenericByteViewArray::<BinaryViewType>::try_new(views,
+// buffers, nulls) with two arbitrary 128-bit views, one data buffer of 14 symbolic bytes (so both inline
+// and out-of-line views with lengths 13 and 14 occur) and an optional validity bitmap of symbolic length
+// <= 3:  Ok <=> both views are well-formed (view_wf) /\ (no bitmap \/ bitmap length == 2). On Ok,
+// value(i) is exactly the bytes the view denotes (inline bytes, or data[offset..offset+len]).
+// @unit name=binary_view_try_new_iff props=C09,C01 kind=bounded bound=views=2_data_buffers=1_of_14_bytes_validity<=3_bits fns=GenericByteViewArray::try_new,GenericByteViewArray::value timeout=900 mem=6
+#[kani::proof]
+#[kani::unwind(18)]
+#[kani::stub(alloc::fmt::format, stub_format)]
+fn binary_view_try_new_iff() {
+    let views: [u128; 2] = kani::any();
+    let data: [u8; 14] = kani::any();
+    let bm: [u8; 1] = kani::any();
+    let with_nulls: bool = kani::any();
+    let nlen: usize = kani::any();
+    kani::assume(nlen <= 3);
+    let nulls = if with_nulls { Some(NullBuffer::new(BooleanBuffer::new(Buffer::from_slice_ref(&bm), 1, nlen))) } else { None };
+    let vb = ScalarBuffer::<u128>::new(Buffer::from_slice_ref(&views), 0, 2);
+    let r = GenericByteViewArray::<BinaryViewType>::try_new(vb, vec![Buffer::from_slice_ref(&data)], nulls);
+    let wf = view_wf(views[0], &data, 1) && view_wf(views[1], &data, 1);
+    assert!(r.is_ok() == (wf && (!with_nulls || nlen == 2)));
+    if let Ok(a) = &r {
+        assert!(a.len() == 2);
+        let i: usize = kani::any();
+        kani::assume(i < 2);
+        let b = views[i].to_le_bytes();
+        let len = u32::from_le_bytes([b[0], b[1], b[2], b[3]]) as usize;
+        let off = u32::from_le_bytes([b[12], b[13], b[14], b[15]]) as usize;
+        let v: &[u8] = a.value(i);
+        assert!(v.len() == len);
+        let j: usize = kani::any();
+        if j < len {
+            assert!(v[j] == if len <= 12 { b[4 + j] } else { data[off + j] });
+        }
+        assert!(a.is_null(i) == (with_nulls && !bit(&bm, 1 + i)));
+    }
+    kani::cover!(r.is_ok() && (views[0] as u32) == 13 && (views[1] as u32) == 5);
+    kani::cover!(r.is_ok() && (views[0] as u32) == 14 && with_nulls);
+    kani::cover!(r.is_err() && wf);
+    kani::cover!(r.is_err() && (views[1] as u32) == 3 && view_wf(views[0], &data, 1));     // non-zero padding
+    kani::cover!(r.is_err() && (views[0] as u32) == 13 && (views[0] >> 64) as u32 == 0 && (views[0] >> 96) as u32 == 1);   // prefix mismatch
+    std::mem::forget(r);
+}
